@@ -1,9 +1,21 @@
 package main
 
 import (
+	"sort"
 	"strings"
 	"time"
 )
+
+// c11Cost orders the jobs: language-level programs, then integer and container keys, then the float families.
+func c11Cost(j Job) int {
+	switch {
+	case j.Func == "VerifMapEval":
+		return 0
+	case strings.Contains(j.Args[1], "F") || strings.Contains(j.Args[3], "F"):
+		return 2
+	}
+	return 1
+}
 
 func init() {
 	register(&PropSpec{
@@ -91,9 +103,11 @@ func init() {
 					jobs = append(jobs, Job{Prop: "C11", Pkg: "eval", Func: "VerifMapEval", Args: []string{v1, v1, "nil", opseq}, MaxDec: 600})
 				}
 			}
+			// cheap families first: a run cut by its budget loses the expensive floating-point families last
+			sort.SliceStable(jobs, func(i, j int) bool { return c11Cost(jobs[i]) < c11Cost(jobs[j]) })
 			return jobs
 		},
-		Budget:    map[string]time.Duration{"quick": 6 * time.Minute, "thorough": 60 * time.Minute},
+		Budget:    map[string]time.Duration{"quick": 12 * time.Minute, "thorough": 60 * time.Minute},
 		TimeoutMs: map[string]int{"quick": 60000, "thorough": 120000},
 		Reach:     []string{"promoted to big map", "lookup hit", "entry deleted"},
 		Bounds: map[string]interface{}{"language_level": "112 programs: a 5-entry and a 2-entry map literal whose keys a, b are symbolic in 0..4 (colliding in every way) and whose values are nil, 0, false, the empty string / array / map, a float, a string; sequences of del / index assignment / + with key c; after each step del's result, len and the three lookups equal those of a reference finite map", "container_keys": "keys that are arrays of 0, 1, 2, 3 elements and maps of 1 and 3 pairs", "pre_state": "any valid SmallMap with 0..4 pairs and any valid BigMap with 0..6 pairs (9 thorough), keys symbolic and assumed strictly increasing under the real Cmp (one inductive step: covers histories of any length provided the invariant is the one the code maintains, which every operation is checked to re-establish)",
